@@ -29,6 +29,7 @@ type Run struct {
 	GMP      int
 	Yield    uint64 // 0: no yield injection
 	Patterns []string
+	Args     []string // extra command line flags (e.g. -go 1.17)
 	Format   string
 	Tests    bool
 	Race     bool
@@ -94,6 +95,7 @@ func main() {
 	par := flag.Int("par", 4, "concurrent runs")
 	ntraced := flag.Int("traced", 1000, "how many of the runs naming all packages record their scheduler trace")
 	withText := flag.Bool("text", true, "also compare two runs with the text formatter")
+	n117 := flag.Int("go117", 3, "runs with -go 1.17 (a package then fails while the runner executes) besides their reference")
 	flag.Parse()
 	rnd := hx.NewRand(*seed)
 	env = hx.GoEnv()
@@ -171,6 +173,27 @@ func main() {
 		mk("partial", gmps[rnd.Intn(len(gmps))], rnd.Uint64()%1000000, shuffled(rnd, allPats)[:k], "json", true)
 	}
 	nt := mk("notests", 4, 1+rnd.Uint64()%1000000, []string{"./..."}, "json", false)
+	// a package that fails WHILE THE RUNNER EXECUTES: under -go 1.17 the generic code of rtfail does not type-check
+	// in loader.Load; its dependents (which also have slower sibling dependencies) must be skipped in every schedule
+	go117 := []string{"-go", "1.17"}
+	ref117 := mk("ref117", 16, 0, []string{"./..."}, "json", false)
+	ref117.Args = go117
+	for i := 0; i < *n117; i++ {
+		r := mk("same117", gmps[(i+1)%len(gmps)], 1+rnd.Uint64()%1000000, []string{"./..."}, "json", false)
+		if i%2 == 1 {
+			r.Patterns = shuffled(rnd, allPats)
+		}
+		r.Args = go117
+		if i >= 1 && *ntraced < *nsame {
+			r.Trace = ""
+		}
+	}
+	// U1000 is decided per package: an object with the same name, file name and line in two packages, used in one
+	// and unused in the other; named alone, in both orders, and together with everything (the reference)
+	mk("partial", 2, 1+rnd.Uint64()%1000000, []string{"./dupb"}, "json", true)
+	mk("partial", 4, 1+rnd.Uint64()%1000000, []string{"./dupa", "./dupb"}, "json", true)
+	mk("partial", 1, 0, []string{"./dupb", "./dupa"}, "json", true)
+	mk("partial", 4, 0, []string{"./dupa"}, "json", true)
 
 	runAll(runs, mod, stdCache, *par)
 	// warm-cache rerun of the reference (same cache directory, results now come from the cache)
@@ -183,7 +206,7 @@ func main() {
 		out.Violations = append(out.Violations, Violation{key, what, d})
 	}
 	descr := func(r *Run) map[string]any {
-		return map[string]any{"id": r.ID, "GOMAXPROCS": r.GMP, "VERIF_YIELD": r.Yield, "patterns": r.Patterns, "format": r.Format, "tests": r.Tests, "race": r.Race, "exit": r.Exit}
+		return map[string]any{"id": r.ID, "GOMAXPROCS": r.GMP, "VERIF_YIELD": r.Yield, "patterns": r.Patterns, "args": r.Args, "format": r.Format, "tests": r.Tests, "race": r.Race, "exit": r.Exit}
 	}
 	for _, r := range runs {
 		if r.TimedOut {
@@ -203,6 +226,11 @@ func main() {
 			continue
 		}
 		switch r.Kind {
+		case "same117":
+			if r.Stdout != ref117.Stdout || r.Exit != ref117.Exit {
+				viol("nondeterministic-output", fmt.Sprintf("same input, different output: run %s (-go 1.17, GOMAXPROCS=%d yield=%d, %d patterns) differs from the reference run (-go 1.17, GOMAXPROCS=16)", r.ID, r.GMP, r.Yield, len(r.Patterns)),
+					map[string]any{"run": descr(r), "ref": descr(ref117), "diff": firstDiff(ref117.Stdout, r.Stdout), "module": mod})
+			}
 		case "same", "warm":
 			if r.Stdout != ref.Stdout || r.Exit != ref.Exit {
 				viol("nondeterministic-output", fmt.Sprintf("same input, different output: run %s (GOMAXPROCS=%d yield=%d, %d patterns) differs from the reference run (GOMAXPROCS=16)", r.ID, r.GMP, r.Yield, len(r.Patterns)),
@@ -227,6 +255,9 @@ func main() {
 			}
 		}
 	}
+	if !ref117.TimedOut && !strings.Contains(ref117.Stdout, "requires go1.18 or later") {
+		viol("harness:no-runtime-failure", "the -go 1.17 reference run does not report the type-check failure of package rtfail: the scenario of a package failing while the runner executes is not exercised", map[string]any{"stdout": ref117.Stdout, "stderr": ref117.Stderr})
+	}
 	if !tx0.TimedOut && !tx1.TimedOut && (tx0.Stdout != tx1.Stdout || tx0.Exit != tx1.Exit) {
 		viol("nondeterministic-output", "same input, different text output", map[string]any{"run": descr(tx1), "ref": descr(tx0), "diff": firstDiff(tx0.Stdout, tx1.Stdout)})
 	}
@@ -239,6 +270,11 @@ func main() {
 			n++
 			tests := i%2 == 1 // odd race runs include the test variants (and hence the standard library closure)
 			r := &Run{ID: fmt.Sprintf("race%02d", i), Kind: "race", GMP: []int{4, 16, 2}[i%3], Yield: 1 + rnd.Uint64()%1000000, Patterns: []string{"./..."}, Format: "json", Tests: tests, Race: true}
+			r.Cache = filepath.Join(work, "cache-"+r.ID)
+			rr = append(rr, r)
+		}
+		if *n117 > 0 {
+			r := &Run{ID: "race117", Kind: "race117", GMP: 4, Yield: 1 + rnd.Uint64()%1000000, Patterns: []string{"./..."}, Args: go117, Format: "json", Tests: false, Race: true}
 			r.Cache = filepath.Join(work, "cache-"+r.ID)
 			rr = append(rr, r)
 		}
@@ -263,6 +299,8 @@ func main() {
 				viol("crash:race", fmt.Sprintf("race run exited with status %d", r.Exit), map[string]any{"run": descr(r), "stderr": r.Stderr})
 			} else if r.Kind == "race" && !r.Tests && r.Stdout != nt.Stdout && !nt.TimedOut {
 				viol("nondeterministic-output", "race build prints a different result than the plain build for the same input", map[string]any{"run": descr(r), "ref": descr(nt), "diff": firstDiff(nt.Stdout, r.Stdout)})
+			} else if r.Kind == "race117" && r.Stdout != ref117.Stdout && !ref117.TimedOut {
+				viol("nondeterministic-output", "race build prints a different result than the plain build for the same input (-go 1.17)", map[string]any{"run": descr(r), "ref": descr(ref117), "diff": firstDiff(ref117.Stdout, r.Stdout)})
 			} else if r.Kind == "race" && r.Tests && r.Stdout != ref.Stdout {
 				viol("nondeterministic-output", "race build prints a different result than the plain build for the same input", map[string]any{"run": descr(r), "ref": descr(ref), "diff": firstDiff(ref.Stdout, r.Stdout)})
 			}
@@ -308,6 +346,7 @@ func execRun(r *Run, dir string) {
 	if !r.Tests {
 		args = append(args, "-tests=false")
 	}
+	args = append(args, r.Args...)
 	args = append(args, r.Patterns...)
 	cmd := exec.Command(b, args...)
 	cmd.Dir = dir
@@ -443,6 +482,8 @@ type pkgSpec struct {
 	imports []string
 	broken  bool
 	tests   bool
+	generic bool
+	dup     int
 }
 
 func genModule(dir string, rnd *hx.Rand, files map[string]string) []string {
@@ -459,12 +500,24 @@ func genModule(dir string, rnd *hx.Rand, files map[string]string) []string {
 		{name: "broken", imports: []string{"util"}, broken: true},
 		{name: "usesbroken", imports: []string{"broken", "base"}},
 		{name: "apex", imports: []string{"top", "usestest", "iso"}},
+		// rtfail type-checks only with go >= 1.18 (generic code): with `-go 1.17` it fails while the runner executes;
+		// its dependents also depend on packages that finish later
+		{name: "rtfail", generic: true},
+		{name: "rtdep1", imports: []string{"rtfail", "mid3"}},
+		{name: "rtdep2", imports: []string{"rtdep1", "top"}},
+		{name: "rtdep3", imports: []string{"rtfail", "apex", "rtdep2"}},
+		// the same unexported object (same name, file name, line) used in dupa and unused in dupb
+		{name: "dupa", dup: 1},
+		{name: "dupb", dup: 2},
 	}
 	// optional extra edges (keep the graph acyclic: only from later to earlier entries)
 	for i := 3; i < len(specs); i++ {
+		if specs[i].generic || specs[i].dup != 0 {
+			continue
+		}
 		if rnd.Chance(40) {
 			j := rnd.Intn(i)
-			if specs[j].broken || specs[j].name == "usesbroken" {
+			if specs[j].broken || specs[j].name == "usesbroken" || specs[j].dup != 0 {
 				continue
 			}
 			dup := false
@@ -530,6 +583,18 @@ func genModule(dir string, rnd *hx.Rand, files map[string]string) []string {
 		}
 		if s.broken {
 			b.WriteString("var brokenValue int = \"not an int\"\n")
+		}
+		if s.generic {
+			fmt.Fprintf(&b, "// Id%d is generic.\nfunc Id%d[T any](x T) T { return x }\n\n// UseId%d instantiates it.\nfunc UseId%d() int { return Id%d(%d) }\n", pi, pi, pi, pi, pi, pi)
+		}
+		if s.dup != 0 {
+			// util.go is identical in both packages up to the package clause; helper is called only in dupa
+			call := "helper()"
+			if s.dup == 2 {
+				call = "41"
+			}
+			write(s.name+"/util.go", fmt.Sprintf("package %s\n\nfunc helper() int { return 7 }\n", s.name))
+			fmt.Fprintf(&b, "// Dup%d may use helper.\nfunc Dup%d() int { return %s }\n", pi, pi, call)
 		}
 		write(s.name+"/"+s.name+".go", b.String())
 		if rnd.Chance(50) {
